@@ -8,8 +8,10 @@ from common import *
 
 IMPORTS = "Spawn.Model"
 KINDS = {0: "spawn", 1: "spawn_linked", 2: "spawn_instant", 3: "spawn_linked_instant",
-         4: "tl_spawn", 5: "tl_spawn_linked", 6: "tl_spawn_instant", 7: "tl_spawn_linked_instant"}
-LINKED = (1, 3, 5, 7)
+         4: "tl_spawn", 5: "tl_spawn_linked", 6: "tl_spawn_instant", 7: "tl_spawn_linked_instant",
+         8: "ActorCell::spawn_linked", 9: "spawn_linked_remote(local id)"}
+LINKED = (1, 3, 5, 7, 8, 9)
+TL = (4, 5, 6, 7)
 INSTANT = (2, 3, 6, 7)
 SUP_INIT = {"none": ("None", 2, False), "run": ("(Some 4)", 2, False), "draining": ("(Some 4)", 4, False),
             "stopping": ("(Some 4)", 5, False), "dead": ("(Some 4)", 6, True)}
@@ -28,7 +30,7 @@ def init_term(s):
     if s["kind"] not in LINKED:
         sp = "None"
     scr = "[" + "; ".join(EFF[t] for t in s["script"]) + "]"
-    return (f"init {b(s['named'])} {sp} {b(s['kind'] >= 4)} {scr} {FIN[s['fin']]} "
+    return (f"init {b(s['named'])} {sp} {b(s['kind'] in TL)} {scr} {FIN[s['fin']]} "
             f"{'(Some 9)' if s['holder'] else 'None'} {sst} {b(scl)}")
 
 
@@ -48,10 +50,10 @@ def chunks_for(s):
     ncall, nwait = 0, 0
     chunks, cur = [], []
     instant = s["kind"] in INSTANT
-    tl = s["kind"] >= 4
+    tl = s["kind"] in TL
     for op in s["ops"]:
         if op == "spawn":
-            spawned = True
+            spawned = s["kind"] != 9      # a local id is refused before ActorCell::new_remote: nothing is created
             if instant:
                 cur.append("LNew")
                 created = True
@@ -192,7 +194,7 @@ def build(rng, kind, named, holder, sup, script, fin, cause, cut, early=None, en
 def gen_systematic(rng):
     out = []
     script = ["j1", "m2", "a", "g", "l", "g"]
-    for kind in range(8):
+    for kind in range(10):
         linked = kind in LINKED
         sups = ["run", "draining", "stopping", "dead"] if linked else ["none"]
         for sup in sups:
@@ -207,7 +209,7 @@ def gen_systematic(rng):
         out.append(build(rng, kind, True, True, sups[0], script, "ok", "none", 0, env=1))
         # thread-local: the spawn future dropped / the actor killed / drained / the supervisor killed while
         # the start request is still queued at a busy spawner
-        if kind >= 4:
+        if kind in TL:
             for q in ("abort", "kill", "drain", "none") + (("supkill",) if linked else ()):
                 for fin in ("ok", "err"):
                     for scr in (script, ["j1"], []):
@@ -218,10 +220,10 @@ def gen_systematic(rng):
 def gen_random(rng, count):
     out = []
     for _ in range(count):
-        kind = rng.choice([0, 1, 2, 3, 4, 5, 6, 7])
+        kind = rng.choice([0, 1, 2, 3, 4, 5, 6, 7, 8, 8, 9])
         linked = kind in LINKED
         queued = None
-        if kind >= 4 and rng.random() < 0.45:
+        if kind in TL and rng.random() < 0.45:
             queued = rng.choice(["abort", "abort", "kill", "drain", "none"] + (["supkill"] if linked else []))
         # a queued non-instant thread-local spawn can only be reached through the registry
         named = True if (queued is not None and kind in (4, 5)) else rng.random() < 0.6
